@@ -182,7 +182,7 @@ theorem cert_hlg_g :
   decide +kernel
 
 /-- real-arithmetic core of the logarithmic branch -/
-theorem hlg_log_real (X af bf cf wv lv rv : ℝ) (hX0 : 1 / 12 ≤ X) (hX1 : X ≤ 1)
+theorem hlg_log_real (X af bf cf wv lv rv : ℝ) (hX0 : 1 / 12 ≤ X) (hX1 : X ≤ 101 / 100)
     (ha : |af - 0.17883277| ≤ 1 / 10 ^ 8) (hb : |bf - 0.28466892| ≤ 2 / 10 ^ 8) (hc : |cf - 0.55991073| ≤ 4 / 10 ^ 8)
     (hw : |wv - (12 * X - bf)| ≤ 1 / 10 ^ 6) (hl : |lv - Real.log wv| ≤ 1 / 10 ^ 6) (hr : |rv - (af * lv + cf)| ≤ 1 / 10 ^ 6) :
     |rv - (0.17883277 * Real.log (12 * X - 0.28466892) + 0.55991073)| ≤ 1 / 10 ^ 5 := by
@@ -244,7 +244,7 @@ variable (B : Build) (hL : LibmLnAccurate B.libm)
 include hL
 
 /-- the logarithmic branch in binary32 -/
-theorem hlg_log_branch (x' : Nat) (X : ℝ) (hxf : Finite x') (hxv : toReal x' = X) (hX0 : 1 / 12 ≤ X) (hX1 : X ≤ 1) :
+theorem hlg_log_branch (x' : Nat) (X : ℝ) (hxf : Finite x') (hxv : toReal x' = X) (hX0 : 1 / 12 ≤ X) (hX1 : X ≤ 101 / 100) :
     Finite (F32.fma HA (B.libm.ln (F32.fma C.arib_b67_oetf_f4 x' (neg HB))) HC) ∧
     |toReal (F32.fma HA (B.libm.ln (F32.fma C.arib_b67_oetf_f4 x' (neg HB))) HC)
       - (0.17883277 * Real.log (12 * X - 0.28466892) + 0.55991073)| ≤ 1 / 10 ^ 5 := by
@@ -264,9 +264,9 @@ theorem hlg_log_branch (x' : Nat) (X : ℝ) (hxf : Finite x') (hxv : toReal x' =
   obtain ⟨b1', b2'⟩ := abs_le.mp vb'
   obtain ⟨c1', c2'⟩ := abs_le.mp vc'
   obtain ⟨hnf, hnv⟩ := toReal_neg HB b3 fb
-  have hxabs : |toReal x'| ≤ 1 := by rw [hxv, abs_of_nonneg (by linarith)]; exact hX1
+  have hxabs : |toReal x'| ≤ 101 / 100 := by rw [hxv, abs_of_nonneg (by linarith)]; exact hX1
   have hnabs : |toReal (neg HB)| ≤ 3 / 10 := by rw [hnv, abs_neg, abs_le]; constructor <;> linarith
-  obtain ⟨hwb, hwe⟩ := fma_bnd C.arib_b67_oetf_f4 x' (neg HB) 12 1 (3 / 10) ⟨f12, by rw [v12]; norm_num⟩ ⟨hxf, hxabs⟩ ⟨hnf, hnabs⟩ (fit_small _ (by norm_num))
+  obtain ⟨hwb, hwe⟩ := fma_bnd C.arib_b67_oetf_f4 x' (neg HB) 12 (101 / 100) (3 / 10) ⟨f12, by rw [v12]; norm_num⟩ ⟨hxf, hxabs⟩ ⟨hnf, hnabs⟩ (fit_small _ (by norm_num))
   rw [v12, hxv, hnv] at hwe
   set wv := toReal (F32.fma C.arib_b67_oetf_f4 x' (neg HB)) with hwv
   have hw6 : |wv - (12 * X - toReal HB)| ≤ 1 / 10 ^ 6 := by
@@ -295,9 +295,10 @@ theorem hlg_log_branch (x' : Nat) (X : ℝ) (hxf : Finite x') (hxv : toReal x' =
     refine le_trans hre ?_; rw [hu']; linarith
   exact hlg_log_real X (toReal HA) (toReal HB) (toReal HC) wv lv _ hX0 hX1 va' vb' vc' hw6 hle hr6
 
-theorem hlg_to_gamma_b : CurveWithinB (arib_b67_oetf B) hlgSpec (1 / 10 ^ 5) := by
+/-- inputs up to 1.01 (used by the round trip, where the first stage may land just above 1) -/
+theorem hlg_to_gamma_ext (x : Nat) (hx : Finite x) (h0 : 0 ≤ toReal x) (h1 : toReal x ≤ 101 / 100) :
+    ∃ r, arib_b67_oetf B x = .ok r ∧ Finite r ∧ |toReal r - hlgSpec (toReal x)| ≤ 1 / 10 ^ 5 := by
   obtain ⟨z1, z2, t1, t2, t3, m1, m2, _, _, _, _, _, _, _, _, _⟩ := cert_hlg_g
-  intro x hxw hx h0 h1
   obtain ⟨fz, vz⟩ := zero_of _ z1 z2
   obtain ⟨hm1, hm2⟩ := max_val x C.arib_b67_oetf_f0 hx fz
   have hxf : Finite (F32.max x C.arib_b67_oetf_f0) := by rcases hm1 with e | e <;> rw [e] <;> assumption
@@ -334,6 +335,9 @@ theorem hlg_to_gamma_b : CurveWithinB (arib_b67_oetf B) hlgSpec (1 / 10 ^ 5) := 
     unfold hlgSpec
     rw [if_neg (by linarith)]
     exact hre
+
+theorem hlg_to_gamma_b : CurveWithinB (arib_b67_oetf B) hlgSpec (1 / 10 ^ 5) :=
+  fun x _ hx h0 h1 => hlg_to_gamma_ext B hL x hx h0 (by linarith)
 
 theorem hlg_to_gamma : CurveWithinF (arib_b67_oetf B) hlgSpec := by
   intro x hxw hx h0 h1
